@@ -32,7 +32,8 @@ McCfgsQuick ==
 
 McCtors == {[k |-> "new", n |-> 0, al |-> 1], [k |-> "unallocated", n |-> 0, al |-> 1]}
 SimCtors == McCtors \cup {[k |-> "with_size", n |-> 200, al |-> 1], [k |-> "with_capacity", n |-> 100, al |-> 32],
-                          [k |-> "with_capacity", n |-> 3, al |-> 1]}
+                          [k |-> "with_capacity", n |-> 3, al |-> 1], [k |-> "with_capacity", n |-> 480, al |-> 8],
+                          [k |-> "with_capacity", n |-> 4090, al |-> 1]}
 
 McLayouts == {[sz |-> 0, al |-> 1], [sz |-> 3, al |-> 1], [sz |-> 8, al |-> 8], [sz |-> 24, al |-> 4], [sz |-> 40, al |-> 32]}
 SimLayouts == {[sz |-> s, al |-> a] : s \in {0, 1, 3, 8, 16, 17, 24, 40, 100, 300}, a \in {1, 2, 4, 8, 16, 32, 64}}
@@ -75,7 +76,7 @@ Next ==
     \/ \E lvl \in ClaimLevels, op \in {"alloc", "grow", "dealloc", "shrink"}, id \in LiveIds \cup {0}, l \in {[sz |-> 8, al |-> 8], [sz |-> 3, al |-> 1]} : ClaimedOp(lvl, op, id, l)
     \/ \E n \in {1, 8, 16}, sc \in Bools : EnterAligned(n, sc)
     \/ ExitAligned("return")
-    \/ \E n \in {8, 16} : EnterBmws(n)
+    \/ \E n \in {8, 16}, bv \in Bools : EnterBmwsG(n, bv)
     \/ \E n \in {1, 8, 16}, g \in {TRUE, cfg.ga} : WithSettings(n, g)
     \/ \E e \in McElems, rv \in Bools, c0 \in {0, 3}, f \in Bools : EnterPrep(e, rv, c0, f)
     \/ \E f \in Bools : PrepPush(f)
@@ -177,7 +178,7 @@ SimStep ==
     \/ (G("claim") /\ ClaimLevels # {} /\ LiveIds # {} /\ ClaimedOp(R(ClaimLevels), R({"grow", "dealloc", "shrink"}), R(LiveIds), R(Layouts)))
     \/ (G("aligned") /\ EnterAligned(R({1, 2, 4, 8, 16}), R(Bools)))
     \/ (G("aligned") /\ ExitAligned(R({"return", "unwind"})))
-    \/ (G("aligned") /\ EnterBmws(R({2, 4, 8, 16})))
+    \/ (G("aligned") /\ EnterBmwsG(R({2, 4, 8, 16}), R(Bools)))
     \/ (G("aligned") /\ (WithSettings(R({1, 2, 4, 8, 16}), TRUE) \/ WithSettings(R({1, 2, 4, 8, 16}), cfg.ga)))
     \/ (G("prep") /\ EnterPrep(R(SimElems), R(Bools), R({0, 0, 1, 5, 20}), FALSE))
     \/ (G("prep") /\ CanFail /\ EnterPrep(R(SimElems), R(Bools), R({5, 20, 200}), TRUE))
@@ -283,4 +284,12 @@ GridNext ==
          \/ \E id \in VecIds : VecExtend(id, 1, "push", FALSE)
          \/ ~InPrep /\ VecIds = {} /\ Alloc([sz |-> 8, al |-> 8], FALSE, FALSE)
 GridSpec == Init /\ [][GridNext]_vars
+
+\* capacity grid: with_capacity constructors for sizes around the rounding boundaries of the chunk size computation, followed by
+\* the allocation of exactly that layout (which must fit the chunk the constructor made)
+CapCtors == {[k |-> "with_capacity", n |-> n, al |-> a] :
+                n \in {1, 3, 100, 430, 440, 448, 456, 464, 465, 472, 480, 488, 496, 504, 512, 520, 600, 4000, 4040, 4049, 4064, 4080, 4096, 4100},
+                a \in {1, 8, 32}}
+CapNext == nops = 0 /\ LET k == hist[1].args IN Alloc([sz |-> k.n, al |-> k.al], FALSE, FALSE)
+CapSpec == Init /\ [][CapNext]_vars
 =============================================================================
